@@ -170,6 +170,8 @@ func reportBackgrounds() []struct {
 		{"3.0", map[string]string{"AV": "P", "AC": "L", "PR": "N", "UI": "N", "S": "U", "C": "N", "I": "H", "A": "L", "E": "U", "RL": "O", "RC": "C", "CR": "L", "IR": "H", "AR": "M", "MAV": "L", "MAC": "H", "MPR": "L", "MUI": "R", "MS": "C", "MC": "N", "MI": "H", "MA": "L"}},
 		{"3.1", map[string]string{"AV": "A", "AC": "L", "PR": "H", "UI": "R", "S": "U", "C": "L", "I": "N", "A": "H", "E": "X", "RL": "X", "RC": "X", "CR": "X", "IR": "X", "AR": "X", "MAV": "X", "MAC": "X", "MPR": "X", "MUI": "X", "MS": "X", "MC": "X", "MI": "X", "MA": "X"}},
 		{"3.0", map[string]string{"AV": "L", "AC": "H", "PR": "L", "UI": "N", "S": "C", "C": "H", "I": "H", "A": "H", "E": "P", "RL": "T", "RC": "U", "CR": "M", "IR": "L", "AR": "H", "MAV": "N", "MAC": "L", "MPR": "N", "MUI": "N", "MS": "C", "MC": "H", "MI": "L", "MA": "N"}},
+		// environmental score differs between 3.0 (9.0) and 3.1 (8.9)
+		{"3.1", map[string]string{"AV": "N", "AC": "L", "PR": "N", "UI": "R", "S": "U", "C": "L", "I": "H", "A": "H", "E": "X", "RL": "X", "RC": "X", "CR": "X", "IR": "X", "AR": "L", "MAV": "X", "MAC": "X", "MPR": "X", "MUI": "X", "MS": "C", "MC": "X", "MI": "X", "MA": "X"}},
 	}
 }
 
